@@ -19,3 +19,11 @@ def run(ctx):
         ctx.add_assumption('NOT built in this tree: the Verus(R) proof of the running-sum invariant of Rms::next_squared; this check '
                            'decides the no_std square-root clause only')
     run_kani(ctx, 'sqrt_nostd', harness=['c11_'], harness_timeout='10m')
+    # bounded, exact-arithmetic check of the running window (std build)
+    note = ('BOUNDED: Rms over [f32;1] frames, window N = 1 (quick) / 1..=3 (thorough), histories of N+2 frames with a reset at a '
+            'symbolic position, dyadic samples k/8 (all f32 arithmetic exact): next_squared == mean of the last N squares '
+            '(earlier ones counted as 0), >= 0, reset restores the zero state, current() is its square root within 1e-4')
+    ctx.bounded.append(note)
+    hs = ['c11_b_rms'] + (['c11_t_rms'] if ctx.tier == 'thorough' else [])
+    run_kani(ctx, 'envelope', harness=hs, rustflags='--cfg rustaudio_dasp_verif', harness_timeout='25m', bounded_note=note,
+             soft_timeout=(ctx.tier == 'thorough'))
